@@ -12,7 +12,10 @@ use rand::rngs::SmallRng;
 use rand::{RngExt, SeedableRng};
 use serde_json::{Value, json};
 
-pub const VERIF_DIR: &str = "/verif";
+/// Root for evidence / replays / known findings (`/verif`, overridable for scratch copies).
+pub fn verif_dir() -> String {
+    std::env::var("P3R_VERIF_DIR").unwrap_or_else(|_| "/verif".to_string())
+}
 
 #[derive(Clone, Copy, Debug, PartialEq, Eq)]
 pub enum Tier {
@@ -205,7 +208,7 @@ pub struct KnownFinding {
 }
 
 pub fn load_known_findings(prop: &str) -> Vec<KnownFinding> {
-    let path = format!("{VERIF_DIR}/known_findings.jsonl");
+    let path = format!("{}/known_findings.jsonl", verif_dir());
     let Ok(text) = std::fs::read_to_string(&path) else {
         return vec![];
     };
@@ -365,7 +368,7 @@ impl Report {
         // Replay files for new violations (at most 20 written).
         let mut replay_paths = vec![];
         if !new_violations.is_empty() {
-            let dir = format!("{VERIF_DIR}/replays/{}", self.prop);
+            let dir = format!("{}/replays/{}", verif_dir(), self.prop);
             let _ = std::fs::create_dir_all(&dir);
             // group by signature, one file each (first witness), cap 20
             let mut seen = BTreeSet::new();
@@ -429,7 +432,7 @@ impl Report {
             "wall_s": wall,
             "violations": new_violations.len(),
         });
-        let evdir = format!("{VERIF_DIR}/evidence");
+        let evdir = format!("{}/evidence", verif_dir());
         let _ = std::fs::create_dir_all(&evdir);
         let evpath = format!("{evdir}/{}.json", self.prop);
         if self.args.replay.is_none() {
